@@ -468,6 +468,9 @@ func runCase(raw json.RawMessage) interface{} {
 	if c.Mode == "nodeseq" {
 		return runNodeSeq(c)
 	}
+	if c.Mode == "wrap" {
+		return runWrap(c)
+	}
 	if c.Mode == "nodefull" {
 		return runNodeFull(c)
 	}
